@@ -170,7 +170,11 @@ func GenStream(r *payload.SplitMix, max int) Stream {
 				mid = 0
 			}
 			mid++
-			emit(refwire.Frame{Stream: sid, Message: mid, Kind: uint8(1 + r.Intn(7)), Done: true, Control: c2, Data: body(r.Intn(50))})
+			nk := uint8(1 + r.Intn(7))
+			nnext := 1 + r.Intn(3)
+			for i := 0; i < nnext; i++ {
+				emit(refwire.Frame{Stream: sid, Message: mid, Kind: nk, Done: i == nnext-1, Control: c2 && i == 0, Data: body(r.Intn(min(effMax/3, 50) + 1))})
+			}
 			mid++
 			desc = append(desc, fmt.Sprintf("unfinished(x%d,ctl=%v)-then-next(ctl=%v)", nun, c1, c2))
 		case act == 10: // id regression
